@@ -430,35 +430,43 @@ def structural(repo, last):
 
 
 # ------------------------------------------------------------------------------------------------ Part B: functional
+ARG_CHECKS = {"isinstance", "is_real_number_vector", "is_real_number", "is_valid_orientation", "is_valid_polyline"}
+
+
 class FTarget:
-    """One function translated statement by statement into a Lean definition over a model structure."""
+    """One method translated statement by statement into a Lean definition that rebinds `self` (a model structure)."""
 
     def __init__(self, name, file, cls, func, setter=False, binders="", ret="", monadic=False, attrs=None, assigns=None,
-                 appends=None, calls=None, stmts_calls=None, names=None, skip_assigns=(), doc=""):
+                 appends=None, dels=None, calls=None, stmt_calls=None, names=None, skip_assigns=(), has=None, doc=""):
         self.name, self.file, self.cls, self.func, self.setter = name, file, cls, func, setter
         self.binders, self.ret, self.monadic = binders, ret, monadic
-        self.attrs = attrs or {}            # self attribute read -> lean text
-        self.assigns = assigns or {}        # self attribute written -> lean template with {v} (new value of `self`)
-        self.appends = appends or {}        # self attribute `a` in `self.a.append(x)` -> lean template with {v}
-        self.calls = calls or {}            # dotted callee in an expression -> lean template with {args} / {a0} {a1}
-        self.stmts_calls = stmts_calls or {}  # dotted callee of an expression statement -> lean template (new `self`) with {a0}..
-        self.names = names or {}            # parameter / global name -> lean text
-        self.skip_assigns = set(skip_assigns)  # attributes outside the model (assignment dropped, value must be effect-free)
+        self.attrs = attrs or {}            # `self.a` read -> lean text
+        self.assigns = assigns or {}        # `self.a = e` -> lean template with {v}: the new `self`
+        self.appends = appends or {}        # `self.a.append(e)` -> lean template with {v}: the new `self`
+        self.dels = dels or {}              # `del self.a` -> lean text: the new `self`
+        self.calls = calls or {}            # callee (dotted; `*.m` = method m of a comprehension variable {x}) -> template {a0} {a1} ..
+        self.stmt_calls = stmt_calls or {}  # callee of an expression statement -> lean template: the new `self`
+        self.names = names or {}            # parameter name -> lean text
+        self.skip_assigns = set(skip_assigns)  # attributes outside the model (assignment dropped; the value must be call-free)
+        self.has = has or {}                # attribute a in `hasattr(self, "a")` / `"a" in self.__dict__` -> lean Bool
         self.doc = doc
 
 
 class FTr:
     def __init__(self, t: FTarget):
         self.t = t
+        self.locals = {}     # local python name -> lean name
+        self.cvars = {}      # comprehension variable -> lean name
 
     def dotted(self, n):
         if isinstance(n, ast.Name):
             return n.id
         if isinstance(n, ast.Attribute):
             return self.dotted(n.value) + "." + n.attr
-        if isinstance(n, ast.Call):
-            return self.dotted(n.func) + "()"
         return "?"
+
+    def fmt(self, tmpl, args, **kw):
+        return tmpl.format(args=" ".join(args), **{f"a{i}": a for i, a in enumerate(args)}, **kw)
 
     def e(self, n) -> str:
         t = self.t
@@ -471,20 +479,26 @@ class FTr:
                 return f"({n.value} : Int)"
             raise Unsupported(f"constant {n.value!r}")
         if isinstance(n, ast.Name):
+            if n.id in self.cvars:
+                return self.cvars[n.id]
+            if n.id in self.locals:
+                return self.locals[n.id]
             if n.id in t.names:
                 return t.names[n.id]
             raise Unsupported(f"name {n.id}")
         if isinstance(n, ast.Attribute):
-            d = self.dotted(n)
-            if d in t.names:
-                return t.names[d]
             if isinstance(n.value, ast.Name) and n.value.id == "self" and n.attr in t.attrs:
                 return t.attrs[n.attr]
+            d = self.dotted(n)
+            if d in t.attrs:
+                return t.attrs[d]
             raise Unsupported(f"attribute {d}")
         if isinstance(n, ast.UnaryOp) and isinstance(n.op, ast.Not):
             return f"(!{self.e(n.operand)})"
         if isinstance(n, ast.UnaryOp) and isinstance(n.op, ast.USub):
             return f"(-{self.e(n.operand)})"
+        if isinstance(n, ast.BinOp) and isinstance(n.op, (ast.Add, ast.Sub)):
+            return f"({self.e(n.left)} {'+' if isinstance(n.op, ast.Add) else '-'} {self.e(n.right)})"
         if isinstance(n, ast.BoolOp):
             op = " && " if isinstance(n.op, ast.And) else " || "
             return "(" + op.join(self.e(v) for v in n.values) + ")"
@@ -492,6 +506,9 @@ class FTr:
             op, l, r = n.ops[0], n.left, n.comparators[0]
             if isinstance(op, (ast.Is, ast.IsNot)) and isinstance(r, ast.Constant) and r.value is None:
                 return f"({self.e(l)}).{'isNone' if isinstance(op, ast.Is) else 'isSome'}"
+            if isinstance(op, (ast.In, ast.NotIn)) and isinstance(l, ast.Constant) and isinstance(l.value, str) \
+                    and self.dotted(r) == "self.__dict__" and l.value in t.has:
+                return t.has[l.value] if isinstance(op, ast.In) else f"(!{t.has[l.value]})"
             sym = {ast.Lt: "<", ast.LtE: "≤", ast.Gt: ">", ast.GtE: "≥", ast.Eq: "=", ast.NotEq: "≠"}.get(type(op))
             if sym is None:
                 raise Unsupported(f"comparison {type(op).__name__}")
@@ -500,11 +517,14 @@ class FTr:
             d = self.dotted(n.func)
             if d == "len" and len(n.args) == 1:
                 return f"(({self.e(n.args[0])}).length : Int)"
-            if d == "hasattr" and len(n.args) == 2 and isinstance(n.args[1], ast.Constant) and ("hasattr:" + n.args[1].value) in t.names:
-                return t.names["hasattr:" + n.args[1].value]
+            if d == "hasattr" and len(n.args) == 2 and self.dotted(n.args[0]) == "self" and isinstance(n.args[1], ast.Constant) \
+                    and n.args[1].value in t.has:
+                return t.has[n.args[1].value]
+            if isinstance(n.func, ast.Attribute) and isinstance(n.func.value, ast.Name) and n.func.value.id in self.cvars \
+                    and ("*." + n.func.attr) in t.calls:
+                return "(" + self.fmt(t.calls["*." + n.func.attr], [], x=self.cvars[n.func.value.id]) + ")"
             if d in t.calls:
-                args = [self.e(a) for a in n.args]
-                return "(" + t.calls[d].format(args=" ".join(args), **{f"a{i}": a for i, a in enumerate(args)}) + ")"
+                return "(" + self.fmt(t.calls[d], [self.e(a) for a in n.args]) + ")"
             raise Unsupported(f"call {d}")
         if isinstance(n, ast.Subscript) and isinstance(n.slice, ast.Slice) and n.slice.upper is None and n.slice.step is None \
                 and isinstance(n.slice.lower, ast.UnaryOp) and isinstance(n.slice.lower.op, ast.USub):
@@ -512,22 +532,24 @@ class FTr:
         if isinstance(n, ast.ListComp) and len(n.generators) == 1 and not n.generators[0].ifs \
                 and isinstance(n.generators[0].target, ast.Name):
             g = n.generators[0]
+            it = self.e(g.iter)
             var = g.target.id
-            sub = FTr(self.t.__class__.__new__(self.t.__class__))
-            sub.t.__dict__.update(self.t.__dict__)
-            sub.t.names = dict(self.t.names)
-            sub.t.names[var] = var + "_"
-            sub.t.calls = dict(self.t.calls)
-            for k, v in list(self.t.calls.items()):
-                if k.startswith("*."):
-                    sub.t.calls[var + k[1:]] = v.replace("{x}", var + "_")
-            return f"(({self.e(g.iter)}).map (fun {var}_ => {sub.e(n.elt)}))"
+            self.cvars[var] = var + "_"
+            try:
+                body = self.e(n.elt)
+            finally:
+                del self.cvars[var]
+            return f"(({it}).map (fun {var}_ => {body}))"
         if isinstance(n, ast.IfExp):
             return f"(if {self.e(n.test)} then {self.e(n.body)} else {self.e(n.orelse)})"
         raise Unsupported(f"expression {type(n).__name__}")
 
+    @staticmethod
+    def ends(stmts):
+        return Walker(ast.parse("def f(self): pass").body[0]).terminates(stmts)
+
     def block(self, stmts, ind) -> str:
-        """Statement list -> lines that rebind `self`; ends with `return self` (an early bare `return` too)."""
+        """Statement list -> lines that rebind `self`; every path ends with `return self`."""
         t = self.t
         pad = "  " * ind
         if not stmts:
@@ -540,15 +562,15 @@ class FTr:
                 raise Unsupported("return with a value")
             return f"{pad}return self"
         if isinstance(s, ast.Assert):
-            try:
-                c = self.e(s.test)
-            except Unsupported:
-                if t.monadic and "assert:" + ast.unparse(s.test).split("(")[0] in t.names:
-                    return self.block(rest, ind)       # a type / validity check the model has as a separate `failed` operation
-                raise
+            if isinstance(s.test, ast.Call) and self.dotted(s.test.func) in ARG_CHECKS:
+                return self.block(rest, ind)       # argument type / validity check: the model's separate `failed` operation
             if not t.monadic:
                 raise Unsupported("assert in a pure target")
-            return f"{pad}CR.Py.assert ({c})\n" + self.block(rest, ind)
+            return f"{pad}CR.Py.assert ({self.e(s.test)})\n" + self.block(rest, ind)
+        if isinstance(s, ast.Assign) and len(s.targets) == 1 and isinstance(s.targets[0], ast.Name):
+            v = self.e(s.value)
+            self.locals[s.targets[0].id] = s.targets[0].id + "_"
+            return f"{pad}let {s.targets[0].id}_ := {v}\n" + self.block(rest, ind)
         if isinstance(s, ast.Assign) and len(s.targets) == 1 and isinstance(s.targets[0], ast.Attribute) \
                 and isinstance(s.targets[0].value, ast.Name) and s.targets[0].value.id == "self":
             a = s.targets[0].attr
@@ -558,38 +580,33 @@ class FTr:
                 return self.block(rest, ind)
             if a not in t.assigns:
                 raise Unsupported(f"assignment to self.{a}")
-            tmpl = t.assigns[a]
-            if "{v}" in tmpl:
-                tmpl = tmpl.format(v=self.e(s.value))
-            elif ("rhs:" + a) in t.names:
-                want = t.names["rhs:" + a]
-                got = ast.unparse(s.value).replace(" ", "")
-                if got not in want:
-                    raise Unsupported(f"value of self.{a}: {got}")
-            return f"{pad}let self := {tmpl}\n" + self.block(rest, ind)
+            return f"{pad}let self := {t.assigns[a].format(v=self.e(s.value))}\n" + self.block(rest, ind)
+        if isinstance(s, ast.Delete) and len(s.targets) == 1 and isinstance(s.targets[0], ast.Attribute) \
+                and self.dotted(s.targets[0].value) == "self" and s.targets[0].attr in t.dels:
+            return f"{pad}let self := {t.dels[s.targets[0].attr]}\n" + self.block(rest, ind)
         if isinstance(s, ast.Expr) and isinstance(s.value, ast.Call):
-            d = self.dotted(s.value.func)
             f = s.value.func
-            if isinstance(f, ast.Attribute) and f.attr == "append" and isinstance(f.value, ast.Attribute) \
-                    and isinstance(f.value.value, ast.Name) and f.value.value.id == "self" and f.value.attr in t.appends \
-                    and len(s.value.args) == 1:
-                return f"{pad}let self := {t.appends[f.value.attr].format(v=self.e(s.value.args[0]))}\n" + self.block(rest, ind)
-            if d in t.stmts_calls:
-                tmpl = t.stmts_calls[d]
-                if "{a0}" in tmpl or "{args}" in tmpl:
-                    args = [self.e(a) for a in s.value.args]
-                    tmpl = tmpl.format(args=" ".join(args), **{f"a{i}": a for i, a in enumerate(args)})
-                return f"{pad}let self := {tmpl}\n" + self.block(rest, ind)
+            d = self.dotted(f)
+            if isinstance(f, ast.Attribute) and f.attr == "append" and len(s.value.args) == 1:
+                base = f.value
+                a = base.attr if (isinstance(base, ast.Attribute) and self.dotted(base.value) == "self") else None
+                if a in t.appends:
+                    return f"{pad}let self := {t.appends[a].format(v=self.e(s.value.args[0]))}\n" + self.block(rest, ind)
+            if d == "self.__dict__.pop" and s.value.args and isinstance(s.value.args[0], ast.Constant) \
+                    and s.value.args[0].value in t.dels and len(s.value.args) == 2:
+                return f"{pad}let self := {t.dels[s.value.args[0].value]}\n" + self.block(rest, ind)
+            if d in t.stmt_calls:
+                return f"{pad}let self := {self.fmt(t.stmt_calls[d], [self.e(a) for a in s.value.args])}\n" + self.block(rest, ind)
             if d == "warnings.warn":
                 return self.block(rest, ind)
             raise Unsupported(f"call statement {d}")
         if isinstance(s, ast.If):
             test = self.e(s.test)
-            w = Walker(ast.parse("def f(self): pass").body[0])
-            body_ends = w.terminates(s.body)
-            else_ends = bool(s.orelse) and w.terminates(s.orelse)
-            then = self.block(list(s.body) + ([] if body_ends else rest), ind + 1)
-            els = self.block(list(s.orelse) + ([] if else_ends else rest), ind + 1)
+            saved = dict(self.locals)
+            then = self.block(list(s.body) + ([] if self.ends(s.body) else rest), ind + 1)
+            self.locals = dict(saved)
+            els = self.block(list(s.orelse) + ([] if s.orelse and self.ends(s.orelse) else rest), ind + 1)
+            self.locals = saved
             return f"{pad}if {test} then\n{then}\n{pad}else\n{els}"
         raise Unsupported(f"statement {type(s).__name__}")
 
@@ -603,7 +620,93 @@ class FTr:
 
 
 def ftargets():
-    return []
+    inval = {"self._invalidate_occupancy_set": "TrajectoryPrediction_invalidate_occupancy_set self"}
+    set_init = "Obstacle_set_initial_state hasWb self {v}"
+    pred_move = ("{{ self with pred := self.pred.map (fun p => match p with "
+                 "| .traj q => .traj (TrajectoryPrediction_translate_rotate q v) | .setb _ ivs => .setb v ivs) }}")
+    obs_attrs = {"_obstacle_shape": "self.shape", "obstacle_shape.shapes": "self.shape", "self.obstacle_shape.shapes": "self.shape",
+                 "wheelbase_lengths": "()", "_prediction": "self.pred", "prediction": "self.pred", "history": "self.hist",
+                 "signal_history": "self.sigHist", "center_lanelet_ids_history": "self.cenHist",
+                 "shape_lanelet_ids_history": "self.shpHist", "initial_state": "(HTok.mk self.init [])",
+                 "initial_signal_state": "self.sig", "initial_center_lanelet_ids": "self.cen",
+                 "initial_shape_lanelet_ids": "self.shp"}
+    cyc_inval = {"self._invalidate_cycle_init_timesteps": "TrafficLightCycle_invalidate_cycle_init_timesteps self"}
+    return [
+        FTarget("TrajectoryPrediction_invalidate_occupancy_set", P, "TrajectoryPrediction", "_invalidate_occupancy_set",
+                binders="(self : TPred)", ret="TPred", has={"occupancy_set": "self.cache.isSome"},
+                dels={"occupancy_set": "{ self with cache := none }"},
+                doc="`occupancy_set` in the instance dictionary = the slot of the cached_property is filled"),
+        FTarget("TrajectoryPrediction_set_shape", P, "TrajectoryPrediction", "shape", setter=True,
+                binders="(self : TPred) (shape : Nat)", ret="TPred", names={"shape": "shape"},
+                assigns={"_shape": "{{ self with shape := {v} }}"}, stmt_calls=inval),
+        FTarget("TrajectoryPrediction_set_trajectory", P, "TrajectoryPrediction", "trajectory", setter=True,
+                binders="(self : TPred) (trajectory : TrajData)", ret="TPred", names={"trajectory": "trajectory"},
+                assigns={"_trajectory": "{{ self with traj := {v} }}"}, stmt_calls=inval),
+        FTarget("TrajectoryPrediction_set_wheelbase_lengths", P, "TrajectoryPrediction", "wheelbase_lengths", setter=True,
+                binders="(self : TPred)", ret="TPred", skip_assigns=["_wheelbase_lenghts", "_wheelbase_lengths"],
+                names={"wheelbase_lenghts": "()", "wheelbase_lengths": "()"}, stmt_calls=inval,
+                doc="the wheelbase list is not part of the token model"),
+        FTarget("TrajectoryPrediction_translate_rotate", P, "TrajectoryPrediction", "translate_rotate",
+                binders="(self : TPred) (v : Nat)", ret="TPred",
+                stmt_calls={**inval, "self._trajectory.translate_rotate": "{{ self with traj := {{ self.traj with v := v }} }}"},
+                names={"translation": "()", "angle": "()"},
+                doc="`v`: the version token the moved trajectory gets (Trajectory.translate_rotate replaces every state)"),
+        FTarget("Obstacle_set_initial_state", O, "Obstacle", "initial_state", setter=True,
+                binders="(hasWb : Bool) (self : Obs) (initial_state : Nat × Int)", ret="Obs",
+                names={"initial_state": "initial_state"}, attrs=obs_attrs, has={"wheelbase_lengths": "hasWb"},
+                assigns={"_initial_state": "{{ self with init := ({v}).1, t0 := ({v}).2 }}",
+                         "_initial_occupancy_shape": "{{ self with initOcc := some {v} }}"},
+                calls={"occupancy_shape_from_state": "({a0}, ({a1}).1)",
+                       "shape_group_occupancy_shape_from_state": "({a0}, ({a1}).1)"},
+                doc="a state is (version token, time step); an occupancy shape is the pair (shape token, state token) it is "
+                    "computed from; `hasWb`: the object has a `wheelbase_lengths` attribute"),
+        FTarget("DynamicObstacle_set_prediction", O, "DynamicObstacle", "prediction", setter=True,
+                binders="(self : Obs) (prediction : Option Pred)", ret="Obs", names={"prediction": "prediction"},
+                assigns={"_prediction": "{{ self with pred := {v} }}"}),
+        FTarget("DynamicObstacle_translate_rotate", O, "DynamicObstacle", "translate_rotate",
+                binders="(hasWb : Bool) (self : Obs) (v : Nat)", ret="Obs", attrs=obs_attrs,
+                names={"translation": "()", "angle": "()"},
+                stmt_calls={"self.prediction.translate_rotate": pred_move, "self._prediction.translate_rotate": pred_move},
+                calls={"self._initial_state.translate_rotate": "(v, self.t0)", "self.initial_state.translate_rotate": "(v, self.t0)",
+                       "*.translate_rotate": "HTok.move v {x}"},
+                assigns={"initial_state": set_init, "history": "{{ self with hist := {v} }}"},
+                doc="`v`: the version token of this motion (the moved initial state; appended to the motions of every history entry)"),
+        FTarget("StaticObstacle_translate_rotate", O, "StaticObstacle", "translate_rotate",
+                binders="(hasWb : Bool) (self : Obs) (v : Nat)", ret="Obs", attrs=obs_attrs,
+                names={"translation": "()", "angle": "()"},
+                calls={"self._initial_state.translate_rotate": "(v, self.t0)", "self.initial_state.translate_rotate": "(v, self.t0)"},
+                assigns={"initial_state": set_init}),
+        FTarget("DynamicObstacle_update_initial_state", O, "DynamicObstacle", "update_initial_state",
+                binders="(hasWb : Bool) (self : Obs) (current_state : Nat × Int) (current_signal_state current_center_lanelet_ids "
+                        "current_shape_lanelet_ids : Nat) (max_history_length : Int)", ret="Obs", monadic=True, attrs=obs_attrs,
+                names={k: k for k in ("current_state", "current_signal_state", "current_center_lanelet_ids",
+                                      "current_shape_lanelet_ids", "max_history_length")},
+                appends={"history": "{{ self with hist := self.hist ++ [{v}] }}",
+                         "signal_history": "{{ self with sigHist := self.sigHist ++ [{v}] }}",
+                         "center_lanelet_ids_history": "{{ self with cenHist := self.cenHist ++ [{v}] }}",
+                         "shape_lanelet_ids_history": "{{ self with shpHist := self.shpHist ++ [{v}] }}"},
+                assigns={"initial_state": set_init, "initial_signal_state": "{{ self with sig := {v} }}",
+                         "initial_center_lanelet_ids": "{{ self with cen := {v} }}",
+                         "initial_shape_lanelet_ids": "{{ self with shp := {v} }}",
+                         "prediction": "DynamicObstacle_set_prediction self {v}",
+                         "history": "{{ self with hist := {v} }}", "signal_history": "{{ self with sigHist := {v} }}",
+                         "center_lanelet_ids_history": "{{ self with cenHist := {v} }}",
+                         "shape_lanelet_ids_history": "{{ self with shpHist := {v} }}"},
+                skip_assigns=["signal_series"],
+                doc="the history logic: append the replaced initial state / signal / lanelet ids, then keep the last max_history_length"),
+        FTarget("TrafficLightCycle_invalidate_cycle_init_timesteps", TL, "TrafficLightCycle", "_invalidate_cycle_init_timesteps",
+                binders="(self : CycCell)", ret="CycCell", has={"_cycle_init_timesteps": "self.cache.isSome"},
+                dels={"_cycle_init_timesteps": "{ self with cache := none }"}),
+        FTarget("TrafficLightCycle_set_cycle_elements", TL, "TrafficLightCycle", "cycle_elements", setter=True,
+                binders="(self : CycCell) (cycle_elements : List CR.TL.Elem)", ret="CycCell", names={"cycle_elements": "cycle_elements"},
+                assigns={"_cycle_elements": "{{ self with primary := {{ self.primary with es := {v} }} }}"}, stmt_calls=cyc_inval),
+        FTarget("TrafficLightCycle_set_time_offset", TL, "TrafficLightCycle", "time_offset", setter=True,
+                binders="(self : CycCell) (time_offset : Int)", ret="CycCell", names={"time_offset": "time_offset"},
+                assigns={"_time_offset": "{{ self with primary := {{ self.primary with off := {v} }} }}"}, stmt_calls=cyc_inval),
+        FTarget("TrafficLightCycle_set_active", TL, "TrafficLightCycle", "active", setter=True,
+                binders="(self : CycCell) (active : Bool)", ret="CycCell", names={"active": "active"},
+                assigns={"_active": "{{ self with primary := {{ self.primary with active := {v} }} }}"}, stmt_calls=cyc_inval),
+    ]
 
 
 def translate_ftarget(repo, t: FTarget) -> str:
